@@ -29,6 +29,8 @@ def run(check: Check, repo: Repo, tier: str) -> None:
     check.floor("LEX-TABLES", 20, "table entries / predicates")
     L.token_count(check, repo)
     L.strip_always_lexes(check, repo)
+    L.separator_table(check, repo)
+    L.block_string_steps(check, repo)
     L.hex_digit_table(check, repo)
     L.number_lookahead(check, repo)
     L.number_parts(check, repo)
